@@ -82,6 +82,14 @@ func mkKeys(K, L int, bits uint8) [][]byte {
 	mask := uint32(1)<<bits - 1
 	bvals := []uint32{0, 0xA5A5A5A5 & mask}
 	for i := range keys {
+		if vrt.Param("concretekeys", 0) != 0 {
+			// fixed digests sharing bucket and first stored byte: for runs whose subject is
+			// file layout / GC / reopen rather than key bytes
+			d := make([]byte, L)
+			d[0], d[1], d[2], d[3] = 0x5A, 0x01, byte(i+1), 0x03
+			keys[i] = append([]byte{0x00, byte(L)}, d...)
+			continue
+		}
 		d := vrt.Bytes("digest", L)
 		pfx := uint32(d[0]) | uint32(d[1])<<8 | uint32(d[2])<<16 | uint32(d[3])<<24
 		vrt.Assume(pfx&mask == bvals[vrt.Choose("bucket", 2)])
